@@ -150,7 +150,7 @@ fn f64_norm_point(c: &F64Angle, obs: &mut Obs) -> PropResult {
     let via32: f32 = by_hue!(k, H => f32::from(H::<f64>::from_degrees(x)));
     let e32 = (via32 as f64 - s).abs();
     obs.err("f64_hue_to_f32_ulps32", e32 / ulp32(via32.abs().max(f32::MIN_POSITIVE)) as f64);
-    ensure!(e32 <= 1.0 * ulp32((s as f32).abs().max(1e-30)) as f64 + u, "{}({:e}): f32::from(hue) = {:e} but the signed normal form of the stored f64 angle is {:e} (error {:e})", HNAMES[k], x, via32, s, e32);
+    ensure!(e32 <= 1.0 * ulp32((s as f32).abs().max(1e-30)) as f64 + 4.0 * u, "{}({:e}): f32::from(hue) = {:e} but the signed normal form of the stored f64 angle is {:e} (error {:e})", HNAMES[k], x, via32, s, e32);
     // raw accessors
     let (raw, rawrad, back) = by_hue!(k, H => {
         let h = H::<f64>::from_degrees(x);
